@@ -1,7 +1,7 @@
 (* exact rational instance of Features (execution only) *)
 From Coq Require Import String.
 From Coq Require Import List Bool Arith QArith Qabs.
-From NV Require Import Base.Exn Model.FitCore Model.Steps Model.Features.
+From NV Require Import Base.Exn Model.FitCore Model.Steps Model.Features Model.FeaturesG Model.FeaturesG2.
 Import ListNotations.
 Local Open Scope Q_scope.
 
@@ -25,6 +25,36 @@ Definition q_bln_variation_core := bln_variation_core Q qadd qsub qmul qdiv Qabs
 Definition q_bln_slope_core := bln_slope_core Q qadd qsub qmul qdiv q_ltb 0 q_of_nat.
 Definition q_cp_curvature_core := cp_curvature_core Q qadd qsub qmul qdiv Qabs q_ltb 0 q_of_nat.
 Definition q_opt_abs (v : option Q) : option Q := option_map Qabs v.
+
+(* the smoothed-gradient features: the filter output observed in the implementation is
+   handed in as the oracle's answer *)
+Definition q_flatness_counts (g : list Q) :=
+  flatness_counts Q qsub qdiv q_ltb 0 (2 # 1) (fun _ _ => g).
+Definition q_flatness_value (g : list Q) (cp : Q) (x res : list Q) : option (option Q) :=
+  match q_flatness_counts g cp x res with
+  | Some (p, q) => if Nat.eqb (p + q) 0 then Some None
+                   else Some (Some (qdiv (q_of_nat p) (qadd (q_of_nat p) (q_of_nat q))))
+  | None => None
+  end.
+Definition q_idt_monotony_core (g : list Q) :=
+  idt_monotony_core Q qadd qsub qmul qdiv Qabs q_ltb 0 (2 # 1) q_of_nat (fun _ _ => g).
+
+(* spike count / spike area / residual maxima: the two filter outputs (sigma 11 and 1) and
+   the value of np.std observed in the implementation are the oracles' answers; the
+   variance itself is exact here and compared with the square of the observed std *)
+Definition q_gauss2 (g11 g1 : list Q) (sigma : nat) (_ : list Q) : list Q :=
+  if Nat.eqb sigma 11 then g11 else g1.
+Definition q_spike_parts (g11 g1 : list Q) (s : Q) :=
+  spike_parts Q qadd qsub qmul qdiv (fun _ => s) q_ltb 0 q_of_nat (q_gauss2 g11 g1).
+Definition q_spike_variance (g11 g1 : list Q) (cp : Q) (x res : list Q) : Q :=
+  let '(_, d1, _, _) := q_spike_parts g11 g1 0 cp x res in
+  variance Q qadd qsub qmul qdiv 0 q_of_nat d1.
+Definition q_spikes_count (g11 g1 : list Q) (s : Q) :=
+  spikes_count Q qadd qsub qmul qdiv Qabs (fun _ => s) q_ltb 0 q_of_nat (q_gauss2 g11 g1).
+Definition q_spike_area_core (g11 g1 : list Q) (s : Q) :=
+  spike_area_core Q qadd qsub qmul qdiv Qabs (fun _ => s) q_ltb 0 q_of_nat (q_gauss2 g11 g1).
+Definition q_maxima_75_core (g11 : list Q) :=
+  maxima_75_core Q qadd qsub qdiv Qabs q_ltb 0 (fun _ _ => g11).
 
 (* lo <= v <= hi *)
 Definition q_within (lo hi v : Q) : bool := Qle_bool lo v && Qle_bool v hi.
